@@ -462,6 +462,19 @@ def base_variants():
     out = [("full", full), ("no-components", no_comp), ("no-schemas", no_schemas)]
     if minimal:
         out.append(("minimal", minimal))
+    # one component section at a time (the base's only components are its links / callbacks / examples / ...): a merge that
+    # decides by hand which sections count must not lose the ones it forgot
+    cstart = full.index("components:")
+    cend = full.index("security:\n- apiKey")
+    body = full[cstart + len("components:\n"):cend]
+    import re as _re
+    sections = _re.split(r"(?m)^(?=  [A-Za-z-]+:)", body)
+    sections = [x for x in sections if x.strip()]
+    for sec in sections:
+        nm = sec.strip().split(":")[0]
+        if nm in ("schemas", "securitySchemes"):
+            continue            # schemas come from the program; security schemes are referred to by `security`
+        out.append(("only-" + nm, full[:cstart] + "components:\n" + sec + full[cend:].replace("security:\n- apiKey: []\n", "")))
     return out
 
 
